@@ -118,7 +118,51 @@ def _gen_value(rng, model, container_path, swarm):
     return {"new": rng.choice(KINDS[1:] if rng.random() < 0.8 else KINDS), "name": name}
 
 
+def _alphabet():
+    """Fixed operation alphabet for the systematic part: every history of up to 3 of these after the two module
+    insertions is executed exactly once per batch (the run index below 92 + 92^2 + 92^3 is decoded as a sequence)."""
+    ops = []
+    for on in (["m1"], ["m2"], ["m1", "a"]):
+        for name in ("a", "b"):
+            for api in ("set_member", "setitem"):
+                for kind in ("module", "class", "function", "attribute"):
+                    ops.append({"op": "set", "api": api, "form": "dotted", "on": on, "value": {"new": kind, "name": name}})
+                ops.append({"op": "set", "api": api, "form": "tuple", "on": on, "value": {"new": "alias", "name": name, "tstr": "m1.a"}})
+                ops.append({"op": "set", "api": api, "form": "name", "on": on, "value": {"new": "alias", "name": name, "tobj": ["m1", "a"]}})
+    for path in (["m1", "a"], ["m1", "a", "b"], ["m2", "a"], ["m1", "b"]):
+        for api in ("del_member", "delitem"):
+            ops.append({"op": "del", "api": api, "form": "dotted", "path": path})
+    for alias in (["m1", "a"], ["m2", "b"]):
+        for how in ("target", "final_target", "resolve_target"):
+            ops.append({"op": "resolve", "alias": alias, "how": how})
+        for to in ("self", "samepath", ["m1", "a"]):
+            ops.append({"op": "retarget", "alias": alias, "to": to})
+    return ops
+
+
+_ALPHABET = _alphabet()
+_N = len(_ALPHABET)
+ENUM_COUNT = _N + _N**2 + _N**3
+
+
+def _enumerated(idx):
+    for length in (1, 2, 3):
+        if idx < _N**length:
+            seq = []
+            for _ in range(length):
+                seq.append(copy.deepcopy(_ALPHABET[idx % _N]))
+                idx //= _N
+            return seq
+        idx -= _N**length
+    return None
+
+
 def generate(rng, opts):
+    raw = opts.get("_seed", 1 << 40) & ((1 << 24) - 1)  # run index inside the batch (batches are 2^20 apart; overlap is harmless)
+    idx = raw // 4
+    if raw % 4 == 0 and idx < ENUM_COUNT and not opts.get("random_only"):
+        ops = [{"op": "set", "api": "set_member", "form": "name", "on": [], "value": {"new": "module", "name": top}} for top in TOPS]
+        return {"ops": ops + _enumerated(idx), "swarm": {"systematic": True, "preparent": bool(idx & 1) and False}}
     swarm = {
         "n_ops": rng.choice([1, 2, 3, 3, 4, 5, 6, 8, 10, 14, 20, 30, 40]),
         "p_detached": rng.choice([0.0, 0.1, 0.3]),
@@ -183,6 +227,7 @@ class Executor:
         self.objs: dict[int, object] = {}  # uid -> real object
         self.uids: dict[int, int] = {}  # id(real) -> uid
         self.moved_inside: set[int] = set()  # aliases that travelled inside a re-inserted subtree
+        self.reg_seen_ok: set = set()  # (alias uid, id(target), path) whose registration was seen correct
         if not model_only:
             import griffe
 
@@ -597,11 +642,15 @@ class Executor:
                     elif t is not None:
                         # (6) registered among the target's aliases under the current path
                         reg = t.aliases.get(dotted)
+                        key = (cn.uid, id(t), dotted)
+                        if reg is co:
+                            self.reg_seen_ok.add(key)
                         if reg is not co:
                             tags = ["moved-subtree"] if self._moved_with_ancestor(cn) else []
-                            if reg is not None:
-                                # the slot is occupied by another alias object that lived at this path earlier
-                                # (deleted, replaced or moved away since; entries are never purged)
+                            if reg is not None and key in self.reg_seen_ok:
+                                # this alias *was* registered here after it got bound; later another alias object that
+                                # lived at this path earlier (deleted, replaced or moved away since; entries are never
+                                # purged) re-registered itself and displaced it
                                 tags.append("slot-held-by-stale-alias")
                             ctx.fail("I6-registration", f"resolved alias {dotted} is not listed in its target's aliases under that path (keys: {sorted(t.aliases)[:6]})", tags=tags)
                             return False
@@ -669,6 +718,8 @@ def execute(plan, ctx):
     snap = ex.snapshot()
     ctx.log("end", snap)
     ctx.nontrivial = effective >= 2
+    if plan.get("swarm", {}).get("systematic"):
+        ctx.probe("systematic-short-histories")
     ctx.cover.append((tuple(trace), _shape(snap)))
 
 
@@ -713,7 +764,9 @@ class _Prop:
     OPTS = {"chunk": 2000, "chunk_wall": 300}
     REPLAY_IN_PARENT = True
     RULE = (
-        "one run = one seeded history of 2+n (n in 1..40) operations over {collection, m1, m2} x names {a,b,c}: "
+        "every fourth run index of a batch (i = 4k, k < 92+92^2+92^3 = 787,244) is decoded as the k-th of *all* histories of 1-3 operations over a "
+        "fixed 92-operation alphabet (systematic part, probe 'systematic-short-histories' counts how many ran); the "
+        "others are: one run = one seeded history of 2+n (n in 1..40) operations over {collection, m1, m2} x names {a,b,c}: "
         "set_member/[]= (fresh module/class/function/attribute/alias or a previously detached object), "
         "del_member/del [], alias resolution (target/final_target/resolve_target), alias retargeting, empty-key "
         "rejections; keys spelled as name, dotted string, tuple or chained lookups; stepped in lock-step with a "
